@@ -35,6 +35,13 @@ def example(i):
             'b': bytearray([i, i + 1]), 'f': np.full((2, 2), float(i))}
 
 
+def example_t(i):
+    """A *tuple* example (e.g. a (features, label) pair, an items() pair, a zip
+    result) whose members are mutable."""
+    return (i, [i, [i]], {'k': i}, np.arange(4, dtype=np.int64) + i, bytearray([i, i + 1]),
+            frozenset([i]), (i, [i]))
+
+
 def deq(x, y):
     """Deep equality that understands numpy arrays."""
     if isinstance(x, np.ndarray) or isinstance(y, np.ndarray):
@@ -66,6 +73,15 @@ CONSTRUCTIONS = (
     ('new-of-raw-dataset', 'dict', 'raw', 'newds'),
     ('diskcache-dict', 'dict', 'pickle', 'disk'),
     ('diskcache-of-raw-list', 'list', 'raw', 'disk'),
+    # the same with tuple examples
+    ('new-dict-copy-tuple', 'dict', 'copy', None),
+    ('new-list-copy-tuple', 'list', 'copy', None),
+    ('new-list-pickle-tuple', 'list', 'pickle', None),
+    ('from_list-wu-tuple', 'list', 'wu', None),
+    ('cache-dict-tuple', 'dict', 'pickle', 'cache'),
+    ('cache-of-raw-list-tuple', 'list', 'raw', 'cache'),
+    ('eager-cache-of-raw-list-tuple', 'list', 'raw', 'eager'),
+    ('diskcache-of-raw-list-tuple', 'list', 'raw', 'disk'),
 )
 
 ACCESS = ('idx+', 'idx-', 'npidx', 'key', 'iter', 'items', 'slice-iter',
@@ -80,8 +96,9 @@ class World:
         self.cons = cons
         self.n = n
         self.keys = [f'k{i}' for i in range(n)]
-        self.pristine = [example(i) for i in range(n)]
-        exs = [example(i) for i in range(n)]
+        mk = example_t if name.endswith('-tuple') else example
+        self.pristine = [mk(i) for i in range(n)]
+        exs = [mk(i) for i in range(n)]
         if backing == 'dict':
             self.container = dict(zip(self.keys, exs))
         elif backing == 'tuple':
@@ -159,9 +176,14 @@ class World:
             c = self.container
             vals = list(c.values()) if isinstance(c, dict) else list(c)
             for ex in vals:
-                ex['l'].append('c')
-                ex['d']['k'] = 'c'
-                ex['a'] += 100
+                if isinstance(ex, tuple):
+                    ex[1].append('c')
+                    ex[2]['k'] = 'c'
+                    ex[3][...] += 100
+                else:
+                    ex['l'].append('c')
+                    ex['d']['k'] = 'c'
+                    ex['a'] += 100
                 did += 1
             if isinstance(c, dict):
                 c['extra'] = example(99)
@@ -169,6 +191,28 @@ class World:
                 c.append(example(99))
             return did
         for o in objs:
+            if isinstance(o, tuple) and len(o) == 7:
+                did += 1
+                try:
+                    if mut in ('append-inner', 'extend-deep'):
+                        o[1].append('m')
+                        o[1][1].append('m')
+                        o[6][1].append('m')
+                    elif mut in ('overwrite-nested', 'del-key'):
+                        o[2]['k'] = 'm'
+                        o[2].pop('gone', None)
+                    elif mut == 'clear':
+                        o[1].clear()
+                        o[2].clear()
+                    elif mut == 'array-inplace':
+                        if o[3].flags.writeable:
+                            o[3][...] = o[3] * 3
+                            o[3][0] = -7
+                    elif mut == 'array-fill-bytes':
+                        o[4][0:1] = b'\xff'
+                except (AttributeError, TypeError, IndexError, ValueError):
+                    pass
+                continue
             if not isinstance(o, dict):
                 continue
             did += 1
